@@ -136,6 +136,10 @@ def c16Ops (op : String) (j : Json) : Option (P Json) :=
       pure (jRes (fun (c : OnchainCfg) => Json.mkObj [("version", jNat c.version), ("pred", jOptBytes c.pred)]) (decodeOnchain b)))
   | "mercury.onchain.encode" => some (do
       pure (jRes jBytes (Mercury.encodeOnchain ⟨← getInt j "min", ← getInt j "max"⟩)))
+  | "mercury.onchain.batch" => some (do
+      let outs ← (← getArr j "configs").mapM fun c => do
+        pure (jRes jBytes (Mercury.encodeOnchain ⟨← getInt c "min", ← getInt c "max"⟩))
+      pure (Json.mkObj [("ok", .arr outs.toArray)]))
   | "mercury.onchain.decode" => some (do
       let b ← getBytes j "bytes"
       pure (jRes (fun (c : Mercury.OnchainCfg) => Json.mkObj [("min", jInt c.min), ("max", jInt c.max)]) (Mercury.decodeOnchain b)))
